@@ -118,6 +118,7 @@ impl TableBootstrapInner {
             return;
         }
 
+        vtrace!("{} B state {:?}", self.socket.local_addr(), new_state);
         self.state_tx.send(new_state).unwrap_or(());
 
         tracing::info!(
@@ -153,6 +154,7 @@ impl TableBootstrapInner {
             }
 
             let router_addresses = resolve(&self.routers, self.socket.ip_version()).await;
+            vtrace!("{} B attempt {bootstrap_attempt} routers={}", self.socket.local_addr(), router_addresses.len());
             self.table.lock().unwrap().routers = router_addresses.clone();
 
             if router_addresses.is_empty() && self.starting_nodes.is_empty() {
@@ -223,6 +225,7 @@ impl TableBootstrapInner {
                 }
             }
 
+            vtrace!("{} B initial-done {responses_received}", self.socket.local_addr());
             if responses_received == 0 {
                 self.set_state(State::IdleBeforeRebootstrap, line!());
                 time::sleep(self.calculate_retry_duration(bootstrap_attempt)).await;
@@ -279,6 +282,7 @@ impl TableBootstrapInner {
                 (table.num_good_nodes(), table.num_questionable_nodes())
             };
 
+            vtrace!("{} B sweep-done {num_good_nodes} {num_questionable_nodes}", self.socket.local_addr());
             tracing::debug!(
                 "{}: TableBootstrap num_good_nodes:{} and num_questionable_nodes:{}",
                 self.ip_version,
@@ -308,6 +312,7 @@ impl TableBootstrapInner {
             loop {
                 time::sleep(PERIODIC_CHECK_TIMEOUT).await;
 
+                vtrace!("{} B check", self.socket.local_addr());
                 if self.table.lock().unwrap().num_good_nodes() < GOOD_NODE_THRESHOLD {
                     break;
                 }
@@ -365,6 +370,9 @@ impl TableBootstrapInner {
     ) {
         let target_id = self.this_node_id.flip_bit(bucket_number);
         let nodes = self.nodes_to_bootstrap_bucket(bucket_number, target_id);
+        if !nodes.is_empty() {
+            vtrace!("{} B round {bucket_number} {}", self.socket.local_addr(), nodes.len());
+        }
 
         for node in nodes {
             // Generate a transaction id
@@ -417,6 +425,7 @@ impl TableBootstrapInner {
     fn handle_message(&self, message: Message, from: SocketAddr) -> bool {
         match message.body {
             MessageBody::Response(rsp) => {
+                vtrace!("{} B handled {from}", self.socket.local_addr());
                 let node = Node::as_good(rsp.id, from);
 
                 let nodes = match self.socket.ip_version() {
@@ -428,7 +437,10 @@ impl TableBootstrapInner {
 
                 true
             }
-            _ => false,
+            _ => {
+                vtrace!("{} B ignored {from}", self.socket.local_addr());
+                false
+            }
         }
     }
 
